@@ -108,6 +108,11 @@ def gen_config(rng, *, fronts=(("interval", 6), ("reverse", 1.5), ("tree", 1.5),
             tol = 10.0 ** math.ceil(math.log10(tol))
     if tol > 0 and (t1 - t0) <= 20 * tol:
         tol = 10.0 ** math.floor(math.log10((t1 - t0) / 100))
+    # with tol > 0 the interval's own end points must be resolved times too (else t1 itself is rounded away)
+    gd = grid_digits(tol, rng)
+    while tol > 0 and (round(t0, gd) != t0 or round(t1, gd) != t1):
+        tol /= 10
+        gd = grid_digits(tol, rng)
     # keep the *designed* size of the dependency tree bounded
     if dt is not None:
         c = 100 if cache is None else max(1, min(cache, 100))
@@ -117,7 +122,7 @@ def gen_config(rng, *, fronts=(("interval", 6), ("reverse", 1.5), ("tree", 1.5),
                dt=None if dt is None else fx(dt), tol=fx(tol), halfway=hw, pool_size=pool, entropy=entropy,
                supply_W=(rng.random() < 0.15 and front in ("interval", "reverse", "tree")),
                supply_H=(rng.random() < 0.1 and front in ("interval", "reverse") and lv != "none"),
-               warmup=warm, gd=grid_digits(tol, rng))
+               warmup=warm, gd=gd)
     return cfg
 
 
@@ -225,10 +230,13 @@ def _flags(rng, cfg):
     return U, A
 
 
-def _q(ta, tb, U=False, A=False, tag=None):
+def _q(ta, tb, U=False, A=False, tag=None, og=False):
+    """og: the times are NOT on the tolerance grid (value oracles skip such ops)."""
     op = {"op": "q", "ta": fx(ta), "tb": fx(tb), "U": bool(U), "A": bool(A)}
     if tag:
         op["tag"] = tag
+    if og:
+        op["og"] = True
     return op
 
 
@@ -296,7 +304,7 @@ def gen_ops(rng, cfg, dom, n_target, mix=None):
                     cur = nxt
                     h *= 1.3
         elif k == "cluster":
-            prev = [o for o in ops if o["op"] == "q"]
+            prev = [o for o in ops if o["op"] == "q" and not o.get("og")]
             if not prev:
                 continue
             o = rng.choice(prev)
@@ -333,9 +341,9 @@ def gen_ops(rng, cfg, dom, n_target, mix=None):
                 continue
             o = rng.choice(prev)
             if rng.random() < 0.5:
-                ops.append(_q(xf(o["ta"]), xf(o["tb"]), o["U"], o["A"], tag="requery"))
+                ops.append(_q(xf(o["ta"]), xf(o["tb"]), o["U"], o["A"], tag="requery", og=o.get("og", False)))
             else:
-                ops.append(_q(xf(o["ta"]), xf(o["tb"]), U, A, tag="requery"))
+                ops.append(_q(xf(o["ta"]), xf(o["tb"]), U, A, tag="requery", og=o.get("og", False)))
         elif k == "whole":
             ops.append(_q(dom[0], dom[1], U, A, tag="whole"))
         elif k == "point":
@@ -348,7 +356,7 @@ def gen_ops(rng, cfg, dom, n_target, mix=None):
         elif k == "triple":
             s, u, t = sorted([_t(rng, cfg, dom), _t(rng, cfg, dom), _t(rng, cfg, dom)])
             if rng.random() < 0.3:
-                prev = [o for o in ops if o["op"] == "q"]
+                prev = [o for o in ops if o["op"] == "q" and not o.get("og")]
                 if prev:
                     o = rng.choice(prev)
                     s2, t2 = xf(o["ta"]), xf(o["tb"])
@@ -366,7 +374,7 @@ def gen_ops(rng, cfg, dom, n_target, mix=None):
             if rng.random() < 0.3:
                 b = a + tol * rng.choice([0.3, 0.05, 1e-3])  # shorter than the tolerance
                 b = min(b, dom[1])
-            ops.append(_q(a, b, U, A, tag="offgrid"))
+            ops.append(_q(a, b, U, A, tag="offgrid", og=True))
     return ops[:max(n_target, 1)] if len(ops) > n_target + 40 else ops
 
 
@@ -392,8 +400,9 @@ def apply_warm_rep(cfg, ops):
     w = cfg.get("warmup")
     if w is None or cfg["halfway"] or cfg["dt"] is not None:
         return
+    span = xf(cfg["t1"]) - xf(cfg["t0"])
     for op in ops:
-        if op["op"] == "q" and xf(op["ta"]) < xf(op["tb"]):
+        if op["op"] == "q" and xf(op["tb"]) - xf(op["ta"]) >= span / (0.8 * designed_c(cfg) * 2048):
             op["rep"] = int(w)
             return
 
@@ -416,12 +425,31 @@ def _where(exc):
     return fn
 
 
+class CaseTooExpensive(Exception):
+    """The history's running-average query length would make the *designed* size of the dependency tree exceed
+    the bound this harness explores (cost proportional to that size is by design, see DESIGN C07). The run is
+    truncated at this point; this is a bound on generated histories, never a verdict."""
+
+
+def designed_c(cfg):
+    cs = cfg["cache_size"]
+    return 100 if cs is None else max(1, min(cs, 100))
+
+
 class BMExec:
     """Executes ops against a Built object, recording every answer in the event log."""
+
+    MAX_DESIGNED = 8192
 
     def __init__(self, built: Built, log: EventLog, monitor_budget=None):
         self.b = built
         self.log = log
+        self.n_len = 0
+        self.sum_len = 0.0
+        self.guard = built.cfg["dt"] is None and not built.cfg["halfway"]
+        self.span = built.dom[1] - built.dom[0]
+        self.c = designed_c(built.cfg)
+        self.truncated = False
         self.monitor_budget = monitor_budget
         self.n_queries = 0
         self.max_depth = 0
@@ -433,6 +461,12 @@ class BMExec:
     def raw(self, ta, tb, U, A, faults=None, idx=None):
         """One call of the service. Returns dict W,U,A (tensors or None)."""
         b = self.b
+        if self.guard and ta < tb:
+            n2, s2 = self.n_len + 1, self.sum_len + (tb - ta)
+            if n2 > 90 and self.span / (0.8 * (s2 / n2) * self.c) > self.MAX_DESIGNED:
+                self.truncated = True
+                raise CaseTooExpensive()
+            self.n_len, self.sum_len = n2, s2
         b.plan.begin_op(faults)
         try:
             try:
@@ -475,6 +509,12 @@ class BMExec:
 
     def point(self, t, faults=None, idx=None):
         b = self.b
+        if self.guard and b.dom[0] < t:
+            n2, s2 = self.n_len + 1, self.sum_len + (t - b.dom[0])
+            if n2 > 90 and self.span / (0.8 * (s2 / n2) * self.c) > self.MAX_DESIGNED:
+                self.truncated = True
+                raise CaseTooExpensive()
+            self.n_len, self.sum_len = n2, s2
         b.plan.begin_op(faults)
         try:
             try:
@@ -514,8 +554,10 @@ def shape_ok(cfg, res):
     if res["U"] is not None and (tuple(res["U"].shape) != size or res["U"].dtype != W.dtype):
         return f"U shape/dtype {tuple(res['U'].shape)}"
     if res["A"] is not None:
-        want = size if len(size) <= 1 else (*size, size[-1])
-        if tuple(res["A"].shape) != tuple(want) or res["A"].dtype != W.dtype:
+        # rank <= 1 samples have no Levy area; torchsde returns zeros shaped like W for a non-empty interval and
+        # zeros of shape (*size, size[-1]) for an empty one. The properties do not fix that shape: accept both.
+        want = [tuple(size)] if len(size) == 0 else [tuple(size), (*size, size[-1])] if len(size) == 1 else [(*size, size[-1])]
+        if tuple(res["A"].shape) not in want or res["A"].dtype != W.dtype:
             return f"A shape/dtype {tuple(res['A'].shape)}"
     return None
 
